@@ -46,8 +46,8 @@ theorem sim_branch (n : Nat) (hc : CallOK T n) (hp : Pos T c nd pre) (e : Expr3)
       (jnzOut T.S.cs ((c.upd (exprOut3 T.S.cs c e).ctx).addBlocks k) e.ty (exprOut3 T.S.cs c e).val).items ++
       .lbl (some (.jnz (jnzOut T.S.cs ((c.upd (exprOut3 T.S.cs c e).ctx).addBlocks k) e.ty
         (exprOut3 T.S.cs c e).val).val lt lz)) l ph :: post)
-    (ht : CanJump T.S lt) (hz : CanJump T.S lz) (inv : SInv T.M0 T.S.cs T.cnts T.σ T.vtys s env M) :
-    ∃ n env' st, T.Reach n (T.at env M pre) st ∧ SInv T.M0 T.S.cs T.cnts T.σ T.vtys s env' M ∧
+    (ht : CanJump T.S lt) (hz : CanJump T.S lz) (inv : SInv T.M0 T.S.cs T.cnts T.W T.σ T.vtys s env M) :
+    ∃ n env' st, T.Reach n (T.at env M pre) st ∧ SInv T.M0 T.S.cs T.cnts T.W T.σ T.vtys s env' M ∧
       AtLabel T.S (if v ≠ 0 then lt else lz) env' M st := by
   obtain ⟨n1, env1, r, w, hreach, inv1, hval, hw, hwv⟩ := sim_condOut3 T n hc hp e k hext hwt hok hev hits inv
   obtain ⟨st, hstep, hat⟩ := step_jnz_item T hits ht hz M hval hw
@@ -63,12 +63,12 @@ theorem sim_branch (n : Nat) (hc : CallOK T n) (hp : Pos T c nd pre) (e : Expr3)
     simpa [hv0] using hat
 
 theorem sim_ite (n : Nat) (hc : CallOK T n) (ih : SimStmt T n) (e : Expr3) (a : Stmt)
-    (hex : exec T.S.cs T.P (n + 1) s (.ite e a) = some out) (hfr : frag T.P T.cnts (.ite e a) = true)
+    (hex : exec T.S.cs T.P (n + 1) s (.ite e a) = some out) (hfr : frag T.P T.cnts T.W (.ite e a) = true)
     (hwt : Stmt.wt T.vtys T.ret lp.1 lp.2 nd (.ite e a) = some nd') (hp : Pos T c nd pre)
     (hext : Ext T (funcstmt T.S.cs brk cont (.ite e a) c).ctx)
     (hits : T.S.its = pre ++ (funcstmt T.S.cs brk cont (.ite e a) c).items ++ post)
     (hlp : (lp.1 = true → CanJump T.S brk) ∧ (lp.2 = true → CanJump T.S cont))
-    (inv : SInv T.M0 T.S.cs T.cnts T.σ T.vtys s env M) :
+    (inv : SInv T.M0 T.S.cs T.cnts T.W T.σ T.vtys s env M) :
     Post T lp brk cont (T.at env M pre) (pre ++ (funcstmt T.S.cs brk cont (.ite e a) c).items)
       (funcstmt T.S.cs brk cont (.ite e a) c).ctx out := by
   simp only [frag, Bool.and_eq_true] at hfr
@@ -158,12 +158,12 @@ theorem sim_ite (n : Nat) (hc : CallOK T n) (ih : SimStmt T n) (e : Expr3) (a : 
   · cases hwt
 
 theorem sim_itee (n : Nat) (hc : CallOK T n) (ih : SimStmt T n) (e : Expr3) (a b : Stmt)
-    (hex : exec T.S.cs T.P (n + 1) s (.itee e a b) = some out) (hfr : frag T.P T.cnts (.itee e a b) = true)
+    (hex : exec T.S.cs T.P (n + 1) s (.itee e a b) = some out) (hfr : frag T.P T.cnts T.W (.itee e a b) = true)
     (hwt : Stmt.wt T.vtys T.ret lp.1 lp.2 nd (.itee e a b) = some nd') (hp : Pos T c nd pre)
     (hext : Ext T (funcstmt T.S.cs brk cont (.itee e a b) c).ctx)
     (hits : T.S.its = pre ++ (funcstmt T.S.cs brk cont (.itee e a b) c).items ++ post)
     (hlp : (lp.1 = true → CanJump T.S brk) ∧ (lp.2 = true → CanJump T.S cont))
-    (inv : SInv T.M0 T.S.cs T.cnts T.σ T.vtys s env M) :
+    (inv : SInv T.M0 T.S.cs T.cnts T.W T.σ T.vtys s env M) :
     Post T lp brk cont (T.at env M pre) (pre ++ (funcstmt T.S.cs brk cont (.itee e a b) c).items)
       (funcstmt T.S.cs brk cont (.itee e a b) c).ctx out := by
   simp only [frag, Bool.and_eq_true] at hfr
